@@ -15,3 +15,7 @@ Proof. exact frame_format_roundtrip. Qed.
 (* the doubly unbounded frame is dropped by the formatter (listed finding) *)
 Theorem C20_unbounded_frame_refuted : fmt_frame (mframe (Between UnbPrec UnbFoll)) = None.
 Proof. exact unbounded_frame_dropped. Qed.
+
+(* non-vacuity: valid frames of the three kinds *)
+Example C20_premise_satisfiable : valid (Between (Prec 2) Cur) = true /\ valid (Single UnbPrec) = true /\ valid (Between (Foll 1) (Foll 3)) = true.
+Proof. vm_compute. auto. Qed.
